@@ -11,7 +11,8 @@ StepDraw(e) ==
   /\ LET f == PathFails(e.box, e.n, e.d, e.hasp, e.p, e.trunc) IN
      Report(e.case, f, IF f = {} THEN <<>> ELSE
             [nd |-> MapDiff(e.box, e.n, e.d), np |-> IF e.hasp = 1 THEN MapDiff(e.box, e.n, e.p) ELSE <<>>])
-StepPanic(e) == e.ev = "panic"      \* totality is C08's business; counted by the recorder
+\* a library call of this case panicked: the property promises a result for every input of its domain
+StepPanic(e) == e.ev = "panic" /\ Report(e.case, {"library_call_panicked"}, [msg |-> e.msg, loc |-> e.loc])
 Next == /\ l <= NRec
         /\ LET e == Rec[l] IN StepCase(e) \/ StepDraw(e) \/ StepPanic(e)
         /\ l' = l + 1
